@@ -25,5 +25,12 @@ pub fn gather_first_layer_queries(
         });
     }
 
+    #[cfg(swiftness_verif)]
+    swiftness_transcript::verif::ev("fri.first")
+        .fs("idx", fri_queries.iter().map(|q| &q.index))
+        .fs("y", fri_queries.iter().map(|q| &q.y_value))
+        .fs("x", x_values.iter())
+        .fs("x_inv", fri_queries.iter().map(|q| &q.x_inv_value))
+        .emit();
     fri_queries
 }
